@@ -351,10 +351,17 @@ impl Value {
                             (format!("Incompatible units {} and {}.", unit2, unit), span).into(),
                         );
                     }
-                    if unit == unit2 || unit == &Unit::None || unit2 == &Unit::None {
-                        num.partial_cmp(num2)
+                    let num2 = if unit == unit2 || unit == &Unit::None || unit2 == &Unit::None {
+                        *num2
                     } else {
-                        num.partial_cmp(&num2.convert(unit2, unit))
+                        num2.convert(unit2, unit)
+                    };
+
+                    // Numbers that are `==` within tolerance are neither less nor greater
+                    if *num == num2 {
+                        Some(Ordering::Equal)
+                    } else {
+                        num.partial_cmp(&num2)
                     }
                 }
                 _ => {
